@@ -125,6 +125,67 @@ func factoryOf(in c16In) (matchers.Factory, error) {
 }
 
 // evaluates one view `repeats` times on the same match; returns the distinct texts, sorted
+// names the context resolves itself before (or instead of) looking at the name table
+var reservedNames = []string{"src", "line", ".", "#", ".#", "#.", "@"}
+
+// a group called . # .# #. or @: a change that resolves a member through GetKey would recurse without
+// end (a fatal stack overflow): such cases are evaluated in a child process
+func hasRecursiveName(in c16In) bool {
+	for _, n := range in.Names {
+		switch unhexs(n.Name) {
+		case ".", "#", ".#", "#.", "@":
+			return true
+		}
+	}
+	return false
+}
+
+var viewChildCache = map[string]*seqWire{}
+
+func runViewChild(in c16In, vi int) ([]string, string) {
+	kb, _ := json.Marshal(in)
+	w, ok := viewChildCache[string(kb)]
+	if !ok {
+		w = &seqWire{}
+		out, errNote := runChild("viewchild", in)
+		if errNote != "" {
+			w.Note = errNote
+		} else if e := json.Unmarshal(out, w); e != nil {
+			w.Note = "unreadable result of the evaluation process: " + e.Error()
+		}
+		viewChildCache[string(kb)] = w
+	}
+	var texts []string
+	if w.Texts[vi] != nil {
+		for _, t := range w.Texts[vi]["0"] {
+			texts = append(texts, unhexs(t))
+		}
+	}
+	return texts, w.Note
+}
+
+func viewChildMain() {
+	var in c16In
+	if err := json.NewDecoder(os.Stdin).Decode(&in); err != nil {
+		fmt.Fprintln(os.Stderr, "viewchild: bad input", err)
+		os.Exit(2)
+	}
+	var w seqWire
+	var notes []string
+	for vi, expr := range []string{"{.}", "{#}", "{.#}"} {
+		texts, note := runView(in, expr)
+		if note != "" {
+			notes = append(notes, expr+": "+note)
+		}
+		w.Texts[vi] = map[string][]string{"0": {}}
+		for _, t := range texts {
+			w.Texts[vi]["0"] = append(w.Texts[vi]["0"], hex.EncodeToString([]byte(t)))
+		}
+	}
+	w.Note = strings.Join(notes, "; ")
+	json.NewEncoder(os.Stdout).Encode(w)
+}
+
 func runView(in c16In, expr string) ([]string, string) {
 	f, err := factoryOf(in)
 	if err != nil {
@@ -136,7 +197,7 @@ func runView(in c16In, expr string) ([]string, string) {
 		batch[i] = extractor.BString(line)
 	}
 	ch := make(chan extractor.InputBatch, 1)
-	ch <- extractor.InputBatch{Batch: batch, Source: "c16", BatchStart: 1}
+	ch <- extractor.InputBatch{Batch: batch, Source: "/var/log/c16-source.log", BatchStart: 7001}
 	close(ch)
 	ex, err := extractor.New(ch, &extractor.Config{Matcher: f, Extract: expr, Workers: 1})
 	if err != nil {
@@ -612,6 +673,8 @@ func c16Run(in c16In) (out c16Out) {
 			if pipeTexts[vi] != nil {
 				texts = pipeTexts[vi][unhexs(in.Line)]
 			}
+		} else if hasRecursiveName(in) {
+			texts, note = runViewChild(in, vi)
 		} else {
 			texts, note = runView(in, v.expr)
 		}
@@ -861,6 +924,11 @@ func classify(in c16In) ([]string, bool) {
 		if n.Idx*2+1 >= len(in.Indices) || n.Idx < 0 {
 			tagset["name:index-out-of-range"] = true
 		}
+		for _, rn := range reservedNames {
+			if unhexs(n.Name) == rn {
+				tagset["name:reserved-key("+rn+")"] = true
+			}
+		}
 		if _, err := strconv.Atoi(unhexs(n.Name)); err == nil {
 			tagset["name:digits(may-collide-with-numbered)"] = true
 		}
@@ -963,8 +1031,8 @@ func genText0(r *Rng) string {
 	}
 }
 
-var wordNames = []string{"a", "b", "ip", "method", "status", "Path", "user_id", "x1", "_", "1", "2", "0", "10", "true", "n", "zz", "A"}
-var wildNames = []string{"a\"b", "back\\slash", "tab\there", "nl\n", "\x01", "sp ace", "été", "\xff", "a:b", "{x}", "", "q\"", "\\", "\x1f\x7f"}
+var wordNames = []string{"src", "line", "src", "line", "a", "b", "ip", "method", "status", "Path", "user_id", "x1", "_", "1", "2", "0", "10", "true", "n", "zz", "A"}
+var wildNames = []string{".", "#", ".#", "#.", "@", "src", "line", "a\"b", "back\\slash", "tab\there", "nl\n", "\x01", "sp ace", "été", "\xff", "a:b", "{x}", "", "q\"", "\\", "\x1f\x7f"}
 
 func genName(r *Rng, wild bool) string {
 	if wild && r.Chance(1, 2) {
@@ -1369,6 +1437,30 @@ func c16Gen(r *Rng, n int, tier string) []Case {
 			}
 		}
 	}
+	// groups called like the context's own keys: the member is the capture, not the source name / line number / a view
+	{
+		hx := func(x string) string { return hex.EncodeToString([]byte(x)) }
+		line := "at parser.go:42 GET"
+		idx := []int{0, len(line), 3, 12, 13, 15, 16, 19}
+		for _, rn := range reservedNames {
+			cases = append(cases, c16Case(c16In{Names: []c16Name{{hx(rn), 1}}, Line: hx(line), Indices: idx, Via: "scripted"}))
+			cases = append(cases, c16Case(c16In{Names: []c16Name{{hx(rn), 2}, {hx("verb"), 3}}, Line: hx(line), Indices: idx, Via: "scripted"}))
+		}
+		all := []c16Name{}
+		for i, rn := range reservedNames {
+			all = append(all, c16Name{hx(rn), 1 + i%3})
+		}
+		cases = append(cases, c16Case(c16In{Names: all, Line: hx(line), Indices: idx, Via: "scripted"}))
+		for _, pm := range [][2]string{
+			{"regex", `at (?P<src>\S+):(?P<line>\d+)`}, {"regex", `at (?P<line>\S+):(\d+) (?P<src>\w+)`},
+			{"dissect", "at %{src}:%{line} %{verb}"}, {"dissect", "at %{line}:%{src} %{}"},
+			{"dissect", "at %{.}:%{#} %{@}"}, {"dissect", "%{.#} %{#.}:%{src} %{line}"},
+		} {
+			if in, ok := fromMatcher(pm[0], pm[1], []byte(line)); ok {
+				cases = append(cases, c16Case(in))
+			}
+		}
+	}
 	// width: every boundary number of capture groups, unnamed and named (member names itoa(i) up to four digits)
 	cleanMode, noCtrl = true, true
 	for _, w := range wideWidths {
@@ -1455,6 +1547,10 @@ func main() {
 		seqChildMain()
 		return
 	}
+	if len(os.Args) >= 2 && os.Args[1] == "viewchild" {
+		viewChildMain()
+		return
+	}
 	if len(os.Args) >= 2 && os.Args[1] == "pipechild" {
 		pipeChildMain()
 		return
@@ -1466,7 +1562,7 @@ func main() {
 			"pipeline part (8 fixed-shape scenarios, then about 1/6 of the seeded cases): 2..4 sources whose line numbers all start at 1 (one line each / one-line batches interleaved round robin / only first lines match / free; lines repeated across sources) are pushed through ONE extractor.New with a real regexp matcher and a JSON view as the expression, with Workers 1 and 2..4, twice each, either as scripted InputBatches in a generated interleaving or as temp files under $VERIF_WORK read by batchers.OpenFilesToChan; every emitted match is grouped by its line and each distinct matching line is one case: all texts ever rendered for that line (whatever was rendered before it) must be the one text of its own captures. " +
 			"width part: scripted matches with 0, 1, 9, 10, 11, 99, 100, 101, 110, 130, 450 and 1000 capture groups (fields of words, numbers, empty texts, unmatched groups), unnamed and named (names on the last / first / middle / 100th group), a regexp with 130 and 100 groups and a dissect pattern with 105 and 99 tokens, and one sequence scenario over lines of width 0..450 with {json <view> <index>} queries for the indices 0, 9, 10, 11, 99, 100, 101, 110, 129, 449, 450: the member name of group i is its decimal numeral for every i. " +
 			"stateful part (8 sequence + 3 concurrent scenarios in quick, 60 + 12 in thorough; one case per distinct line): {.}, {#}, {.#} and {json <view> <member>} queries are each compiled ONCE, optimised and unoptimised, and evaluated (inside an extractor.IgnoreSet probe, i.e. on the workers' real expression contexts, besides the extractor's own shared key builder) over 5..9 different matches of one scripted matcher — an all-empty probe-like context first, different group counts, unmatched groups, lines sharing the text of group 0, texts needing escapes followed by plain ones, adjacent repeats — either as one sequence with Workers 1 (every evaluation also compared with a fresh compile) or from 4..8 workers at once behind a start barrier, 2500 evaluations of every expression per worker (every 16th compared with a fresh compile); all texts ever produced for a line must be the one text of that line alone, and every query must give the member's text. " +
-			"seeded part: 1/6 `rare expression -r -n -d ... -k k=v` run in-process through cmd.GetSupportedCommands (0..4 data, 0..4 keys, the -k order rotated between evaluations; no NUL, no comma, no '=' in keys, valid UTF-8 only, no surrounding white space: what the flag library passes on unchanged); of the rest 60% scripted matcher (0..5 groups with nested/overlapping/empty/unmatched spans, 0..4 names incl. digits-only, duplicate group, out-of-range index, names needing escapes), 20% real regexp ((?P<name>...) fields separated by 0x1e, optional groups), 20% real dissect (arbitrary token names). " +
+			"seeded part: 1/6 `rare expression -r -n -d ... -k k=v` run in-process through cmd.GetSupportedCommands (0..4 data, 0..4 keys, the -k order rotated between evaluations; no NUL, no comma, no '=' in keys, valid UTF-8 only, no surrounding white space: what the flag library passes on unchanged); of the rest 60% scripted matcher (0..5 groups with nested/overlapping/empty/unmatched spans, 0..4 names incl. the context's own keys src, line, ., #, .#, #., @ (source name and line numbers differ from every capture), digits-only, duplicate group, out-of-range index, names needing escapes), 20% real regexp ((?P<name>...) fields separated by 0x1e, optional groups), 20% real dissect (arbitrary token names). " +
 			"group texts: numeric shapes, boolean shapes, log-like words, raw random bytes, digit noise, words mixed with quotes/backslashes/control characters/non-ASCII/invalid UTF-8. " +
 			"every view ({.}, {#}, {.#}) of every case is evaluated 50 times through extractor.New on one batch; the observable is the set of distinct texts per view plus encoding/json's verdict. " +
 			"distinct = distinct (names, line, indices, matcher); non-trivial = at least one of: a text with control/quote/backslash/DEL/non-ASCII/invalid UTF-8, a numeric or boolean (look-alike) text, an unmatched group, a name that needs escaping / is digits-only / points out of range, two or more names, a pipeline line rendered right after a match with the same line number from another source, a line occurring in several places of a pipeline run.",
